@@ -23,6 +23,25 @@
   `makeAware` (helpers.py:343-353): dict -> dict, tuple / list -> list,
       datetime -> `value.replace(tzinfo=utc)` (whatever tzinfo it had), else unchanged.
 
+  Where the two helpers are applied (the paths of the property):
+      writes    `_insert` patches the document; `_apply_update` patches filter and update document
+                (the clock value of `$currentDate` too); the upsert seed passes `_insert` again
+                (MongoModel/Store.lean follows these call sites, `patchDT`)
+      filters   every filter-taking entry point patches its filter (`Cursor.__init__`, `_update`,
+                `_delete`, `count_documents`, `distinct`, `find_one_and_*`); the `$match` stage
+                patches the filter and each document it is matched against
+      reads     `Cursor._compute_results`: stored documents as they are, or `makeAware` of them under
+                `tz_aware=True`                                             — `readDoc`
+      pipeline  `Collection.aggregate` (after the collation / array_filters / let checks, before the
+                input is read with `self.find()`): `pipeline = patch(pipeline)`, then under
+                `tz_aware=True` `pipeline = makeAware(pipeline)`            — `aggPipeline`
+                every datetime written anywhere in the pipeline (`$addFields`, `$project`,
+                `$literal`, `$group` keys and accumulator arguments, `$bucket` boundaries, `$facet`
+                and its sub-pipelines, `$replaceRoot`, expression operands, `$match`, `$out`) is
+                handed to `process_pipeline` in the form the collection's own documents are read
+                in; the caller's pipeline object is not written to (containers rebuilt, tuples
+                become lists)
+
   Scope limits (outside the model): PEP 495 `fold`, tzinfo objects whose offset is not a fixed
   whole number of minutes or whose truth value is false, `bson.Timestamp`, datetimes within one
   offset of `datetime.min` / `datetime.max` (Python raises OverflowError).
@@ -134,6 +153,11 @@ def AwareUtc : DatePred := fun _ off => off = some 0
 
 def awareUtcB (_ : Int) (off : Option Int) : Bool := off == some 0
 
+/-- aware, offset zero, whole milliseconds: the stored form as a `tz_aware=True` client reads it -/
+def AwareNormal : DatePred := fun us off => off = some 0 ∧ us % 1000 = 0
+
+def awareNormalB (us : Int) (off : Option Int) : Bool := off == some 0 && us % 1000 == 0
+
 /-- naive (no tzinfo) -/
 def Naive : DatePred := fun _ off => off = none
 
@@ -216,5 +240,30 @@ end
 
 /-- the store-level invariant: every stored document holds only normal datetimes -/
 def DateInv (s : List Val) : Prop := ∀ d ∈ s, AllDates Normal d
+
+/-! ### the read side and the aggregation pipeline -/
+
+/-- what a reader is handed for a stored value (`Cursor._compute_results`, collection.py): the
+    value itself, or `makeAware` of it when the client was created with `tz_aware=True` -/
+def readDoc (tzAware : Bool) (v : Val) : Val := if tzAware then makeAware v else v
+
+/-- the form of every datetime a client with this `tz_aware` setting is to see -/
+def ReadForm (tzAware : Bool) : DatePred := if tzAware then AwareNormal else Normal
+
+def readFormB (tzAware : Bool) (us : Int) (off : Option Int) : Bool :=
+  if tzAware then awareNormalB us off else normalB us off
+
+/-- `Collection.aggregate` (collection.py): the pipeline `process_pipeline` is handed for the
+    pipeline the caller wrote —
+        pipeline = helpers.patch_datetime_awareness_in_document(pipeline)
+        if self.codec_options.tz_aware:
+            pipeline = helpers.make_datetime_timezone_aware_in_document(pipeline) -/
+def aggPipeline (tzAware : Bool) (pipeline : Val) : Val :=
+  let p := patch pipeline
+  if tzAware then makeAware p else p
+
+/-- `Collection.aggregate` before the repair d1da933: the pipeline went to `process_pipeline` as
+    written (only the `$match` stage normalised its own filter) -/
+def aggPipelineUnrepaired (_tzAware : Bool) (pipeline : Val) : Val := pipeline
 
 end MongoModel
